@@ -21,6 +21,7 @@ type Cfg struct {
 	Module      int // 0 tape; -1 TEE_TCB_SVN[1]=0; 1..9 module version
 	PermuteExt  bool
 	SpreadTimes bool // five verification instants pairwise distinct, anywhere inside all windows
+	AKI         int  // 0 tape; -1 key identifier (usual); 1..3 see CertSpec.AKI
 	NoPCS       bool // skip collateral generation (faster) when only the base level is used
 }
 
@@ -66,6 +67,11 @@ type World struct {
 	// SerialCoincidence: the CRLs list other issuers' certificates that share a serial number with
 	// this world's certificates (still an honest world: nothing of it is revoked)
 	SerialCoincidence bool
+	// Coincide: 0 all quote fields independent; 1 owner/config identifiers and RTMR2/3 zero; 2 equal-sized
+	// neighbouring fields equal; 3 one pair of 48-byte TD fields equal
+	Coincide          int
+	HdrEsc            int // which of the equivalent URL encodings the PCS uses for issuer-chain headers
+	AKI               int // CertSpec.AKI form used by every non-root certificate of PKI A
 	LevelIdx          int // index of the TCB level the platform matches (honest: UpToDate)
 	ModLevelIdx int // index of the matching module level, -1 when the module branch is off
 }
@@ -89,6 +95,19 @@ func NewWorld(r Rand, cfg Cfg) *World {
 		w.Epoch = time.Date(2024, 3, 1, 12, 0, 0, 0, time.UTC).Add(time.Duration(r.Draw(400)) * day)
 	}
 	w.A = NewPKI(r, "A", w.Epoch, nil)
+	// how certificates name their issuer: by key identifier (Intel's practice), not at all, or by
+	// issuer name + serial — all legal (RFC 5280 4.2.1.1) and all the same certificates to a verifier
+	w.AKI = cfg.AKI
+	if w.AKI == 0 && r.Chance(1, 4) {
+		w.AKI = 1 + r.Draw(3)
+	}
+	if w.AKI < 0 {
+		w.AKI = 0
+	}
+	if w.AKI != 0 {
+		w.A.PlatSpec.AKI, w.A.ProcSpec.AKI, w.A.TcbSpec.AKI = w.AKI, w.AKI, w.AKI
+		w.A.Rebuild()
+	}
 	proc := cfg.Processor == 2 || (cfg.Processor == 0 && r.Chance(1, 8))
 	if proc {
 		w.CA, w.CAKey, w.CAID = w.A.Proc, w.A.ProcKey, "processor"
@@ -149,6 +168,12 @@ func NewWorld(r Rand, cfg Cfg) *World {
 	p.QE.IsvSvn = uint16(1 + r.Draw(60000))
 	y := 365 * day
 	p.PCKSp = PCKSpec(r, Window{w.Epoch.Add(-1 * y), w.Epoch.Add(6 * y)}, nil)
+	p.PCKSp.AKI = w.AKI
+	if w.AKI == AKIAbsent {
+		// Intel's PCK profile fixes the leaf's extension set (the library counts six): the leaf keeps an
+		// authorityKeyIdentifier, in the issuer+serial form
+		p.PCKSp.AKI = AKIIssuerSerial
+	}
 	if proc {
 		p.PCKSp.CRLDP = []string{"https://api.trustedservices.intel.com/sgx/certification/v4/pckcrl?ca=processor&encoding=der"}
 	}
@@ -176,6 +201,30 @@ func NewWorld(r Rand, cfg Cfg) *World {
 		copy(q.Rtmr[i][:], bb[208+48*i:256+48*i])
 	}
 	copy(q.ReportData[:], bb[400:464])
+	// field coincidences: real TDs mostly report all-zero owner / configuration identifiers and unused
+	// registers, so that equal-sized neighbouring fields carry the same value.  A verifier that reads one
+	// field where it means the other is invisible on fully random quotes and on such quotes only here.
+	f48 := []*[48]byte{&q.MrTd, &q.MrConfigID, &q.MrOwner, &q.MrOwnerConfig, &q.Rtmr[0], &q.Rtmr[1], &q.Rtmr[2], &q.Rtmr[3]}
+	switch w.Coincide = r.Draw(4); w.Coincide {
+	case 1:
+		for _, f := range f48[1:4] {
+			*f = [48]byte{}
+		}
+		q.Rtmr[2], q.Rtmr[3] = [48]byte{}, [48]byte{}
+	case 2:
+		for _, f := range f48[1:] {
+			*f = q.MrTd
+		}
+		p.MrSignerSeam = p.MrSeam
+		q.MrSignerSeam = p.MrSeam
+		p.QE.MrEnclave = p.QE.MrSigner
+		q.QeSvn = q.PceSvn
+		copy(q.ReportData[32:], q.ReportData[:32])
+	case 3:
+		i := r.Draw(len(f48))
+		j := (i + 1 + r.Draw(len(f48)-1)) % len(f48)
+		*f48[j] = *f48[i]
+	}
 	switch {
 	case cfg.AuthLen == -1:
 		q.Auth = []byte{}
@@ -191,6 +240,7 @@ func NewWorld(r Rand, cfg Cfg) *World {
 
 	// ---- collateral contents
 	if !cfg.NoPCS {
+		w.HdrEsc = []int{0, 0, 1, 2}[r.Draw(4)]
 		w.genCollateral(r)
 	}
 	// ---- times
@@ -289,6 +339,10 @@ func (w *World) genCollateral(r Rand) {
 					switch {
 					case i < ml:
 						lv = ModLevel{uint32(p.Tee[0]) + 1 + uint32(r.Draw(50)), Statuses[r.Draw(len(Statuses))], ""}
+						if r.Chance(1, 3) {
+							// the JSON number is 32 bits wide, the module's SVN one byte: never reached
+							lv.Isvsvn = uint32(256*(1+r.Draw(3))) + uint32(r.Draw(int(p.Tee[0])+1))
+						}
 					case i == ml:
 						lv = ModLevel{uint32(r.Draw(int(p.Tee[0]) + 1)), "UpToDate", ""}
 						if r.Bool() {
@@ -427,14 +481,14 @@ func (w *World) Build(trailingNul bool) {
 func (w *World) Publish() {
 	s := NewPCS()
 	s.Tcb[strings.ToLower(hex.EncodeToString(w.P.Ext.FMSPC[:]))] = &Endpoint{
-		Hdr:  map[string][]string{HdrTcbInfo: {IssuerChainHeader(w.TcbSignerInTcb, w.RootInTcb)}},
+		Hdr:  map[string][]string{HdrTcbInfo: {IssuerChainHeaderEsc(w.HdrEsc, w.TcbSignerInTcb, w.RootInTcb)}},
 		Body: SignedBody("tcbInfo", w.Tcb.JSON(), w.TcbSignerInTcb.Key)}
 	s.QE = &Endpoint{
-		Hdr:  map[string][]string{HdrQE: {IssuerChainHeader(w.TcbSignerInQE, w.RootInQE)}},
+		Hdr:  map[string][]string{HdrQE: {IssuerChainHeaderEsc(w.HdrEsc, w.TcbSignerInQE, w.RootInQE)}},
 		Body: SignedBody("enclaveIdentity", w.QE.JSON(), w.TcbSignerInQE.Key)}
 	w.PckCrlDER = MakeCRL(w.PckCrl, w.CA, w.CAKey)
 	w.RootCrlDER = MakeCRL(w.RootCrl, w.A.Root, w.A.RootKey)
-	s.PckCrl[w.CAID] = &Endpoint{Hdr: map[string][]string{HdrPckCrl: {IssuerChainHeader(w.CAInCrl, w.RootInCrl)}}, Body: w.PckCrlDER}
+	s.PckCrl[w.CAID] = &Endpoint{Hdr: map[string][]string{HdrPckCrl: {IssuerChainHeaderEsc(w.HdrEsc, w.CAInCrl, w.RootInCrl)}}, Body: w.PckCrlDER}
 	for _, u := range w.RootInQE.X.CRLDistributionPoints {
 		s.ByURL[u] = &Endpoint{Body: w.RootCrlDER}
 	}
@@ -470,5 +524,5 @@ func (w *World) Describe() string {
 	if w.Tcb != nil {
 		nl = len(w.Tcb.Levels)
 	}
-	return fmt.Sprintf("epoch=%s ca=%s auth=%d extra=%d chain=%d levels=%d match=%d module=%s", w.Epoch.Format("2006-01-02"), w.CAID, len(w.Quote.Auth), len(w.Quote.Extra), len(w.Quote.Chain), nl, w.LevelIdx, mod)
+	return fmt.Sprintf("epoch=%s ca=%s auth=%d extra=%d chain=%d levels=%d match=%d module=%s coincide=%d aki=%d", w.Epoch.Format("2006-01-02"), w.CAID, len(w.Quote.Auth), len(w.Quote.Extra), len(w.Quote.Chain), nl, w.LevelIdx, mod, w.Coincide, w.AKI)
 }
